@@ -30,9 +30,13 @@ class FireflySwarmOptimization(OptimizationAbstract):
 
     def __init__(self, config: FireflySwarmOptimizationConfig | None = None, debug: bool | None = False):
         super().__init__(config, debug)
+        self.__alpha: float | None = None
 
     def set_config_parameters(self, parameters: dict[str, Any]):
         self._config = FireflySwarmOptimizationConfig(**parameters)
+
+    def before_initialization(self):
+        self.__alpha = self._config.alpha
 
     def optimization_step(self):
         def update_firefly(idx: int, firefly: Firefly) -> Firefly:
@@ -63,9 +67,9 @@ class FireflySwarmOptimization(OptimizationAbstract):
 
         # update alpha parameter. This parameter is used to control the randomness of the movement of the fireflies
         delta = 1.0 - (10.0 ** -4.0 / 0.9) ** (1.0 / self._current_cycle)
-        self._config.alpha *= (1 - delta) * self._config.alpha
+        self.__alpha *= (1 - delta) * self.__alpha
 
-        alpha = self._config.alpha
+        alpha = self.__alpha
         beta_min = self._config.beta_min
         gamma = self._config.gamma
 
